@@ -250,6 +250,39 @@ def _is_counter(f, name):
     return False
 
 
+VIEW_CALLS = {'numpy.moveaxis', 'numpy.swapaxes', 'numpy.transpose', 'numpy.expand_dims', 'numpy.squeeze', 'numpy.rollaxis', 'numpy.broadcast_to', 'numpy.atleast_1d', 'numpy.atleast_2d',
+              'numpy.lib.stride_tricks.as_strided', 'numpy.lib.stride_tricks.sliding_window_view'}
+
+
+def check_viewstore(model, R, funcs, P):
+    """a store through a temporary only reaches the array if the temporary is a guaranteed VIEW: ravel() / reshape() / flatten() / astype() / ascontiguousarray()
+    may (or always) return a copy, and `tmp(...)[i] = v` then updates nothing (e.g. for a non-contiguous operand)"""
+    R.rule(P + '.VIEWSTORE', 'an element store whose base is a call result goes through a guaranteed view (transpose / moveaxis / swapaxes / expand_dims / .T / basic slicing), never through '
+                             'ravel / reshape / flatten / astype / ascontiguousarray, which may return a copy (the update would be lost for non-contiguous operands)', floor=0)
+    n = 0
+    for f in funcs:
+        for st in body_walk(f.node):
+            tgts = []
+            if isinstance(st, ast.Assign):
+                tgts = st.targets
+            elif isinstance(st, ast.AugAssign):
+                tgts = [st.target]
+            for t in tgts:
+                if not isinstance(t, ast.Subscript):
+                    continue
+                base = t.value
+                while isinstance(base, ast.Subscript) or (isinstance(base, ast.Attribute) and base.attr == 'T'):
+                    base = base.value
+                if isinstance(base, ast.Call):
+                    d = model.resolve(f.mod, base.func) or ''
+                    ok = d in VIEW_CALLS
+                    n += 1
+                    R.ob(P + '.VIEWSTORE', f.qualname, norm(st)[:100], ok,
+                         'the store goes through %s, which may return a copy: the written array is a temporary and the update is lost' % (d or norm(base.func)), _loc(f, st))
+    if n == 0:
+        R.ob(P + '.VIEWSTORE', 'kernels', 'no element store through a call result in %d kernels' % len(funcs), True, '', '')
+
+
 def check_scatter(model, R, funcs, P, grad_param_of=None, floor=1):
     """funcs: kernel Funcs whose first parameter is the gradient (or col2im-side routines: first param = columns)"""
     R.rule(P + '.SCATTER', 'writing gradient values into a zero buffer must accumulate wherever positions can coincide: '
